@@ -358,6 +358,14 @@ func TestRAC_C12(t *testing.T) {
 			}
 		}
 	}
+	// negations of every kind of operand as conditions and as values: ! is not truth-negation for values that
+	// are neither boolean nor null, so "!c ? a : b" is not "c ? b : a" and "!!x" is not x
+	for _, l := range xLeaves {
+		not := &xnode{op: "not", l: l}
+		chains = append(chains, &xnode{op: "?:", c: not, l: leaf("1"), r: leaf("2")}, &xnode{op: "not", l: not}, &xnode{op: "not", l: &xnode{op: "not", l: not}},
+			&xnode{op: "?:", c: &xnode{op: "not", l: not}, l: leaf("1"), r: leaf("2")}, &xnode{op: "&&", l: not, r: leaf("true")}, &xnode{op: "||", l: &xnode{op: "not", l: not}, r: leaf("false")},
+			&xnode{op: "not", l: &xnode{op: "-", l: l, r: l}}, &xnode{op: "?:", c: &xnode{op: "not", l: &xnode{op: "*", l: l, r: leaf("0")}}, l: leaf("3"), r: leaf("5")})
+	}
 	for i := 0; i < n+len(chains) && len(rep.Violations) < 12; i++ {
 		var tree *xnode
 		if i < len(chains) {
